@@ -108,9 +108,17 @@ def campaign(ctx: Any, pid: str, runs: int, seed: int) -> None:
         env = dict(os.environ, PYTHONPATH=os.pathsep.join([DEPS, ROOT, os.environ.get("PYTHONPATH", "")]), PYTHONHASHSEED="0")
         cmd = [
             sys.executable, "-m", "vf.fuzz.target", pid, out, corpus,
-            f"-runs={runs}", f"-seed={seed % (2**31 - 1) or 1}", "-max_len=400", "-timeout=120", "-rss_limit_mb=6000", "-verbosity=0", "-print_final_stats=1",
+            f"-runs={runs}", f"-seed={seed % (2**31 - 1) or 1}", "-max_len=400", "-timeout=120", "-rss_limit_mb=2500", "-verbosity=0", "-print_final_stats=1",
         ]
-        p = subprocess.run(cmd, cwd=ROOT, env=env, capture_output=True, text=True, timeout=max(1800, runs // 20))
+        def _uncap() -> None:  # libFuzzer reserves address space freely; its own -rss_limit_mb bounds real memory
+            import resource
+
+            _soft, hard = resource.getrlimit(resource.RLIMIT_AS)
+            resource.setrlimit(resource.RLIMIT_AS, (hard, hard))
+
+        p = subprocess.run(cmd, cwd=ROOT, env=env, capture_output=True, text=True, timeout=max(1800, runs // 20), preexec_fn=_uncap)
+        if p.returncode != 0:
+            ctx.classes["fuzz:campaign-aborted"] += 1
         stats_path = os.path.join(out, "stats.json")
         if not os.path.exists(stats_path):
             from ..core import HarnessError
